@@ -34,6 +34,44 @@ def _branches(s):
     return [b for b in (s.get("oneOf") or s.get("anyOf") or []) if isinstance(b, dict) and b.get("type") == "object"]
 
 
+def _unions(doc, s, depth=0, seen=None):
+    """every oneOf/anyOf schema reachable from s (through refs, properties, items)"""
+    seen = seen if seen is not None else set()
+    if not isinstance(s, dict) or depth > 12:
+        return
+    if "$ref" in s:
+        n = s["$ref"].split("/")[-1]
+        if n in seen:
+            return
+        seen.add(n)
+        yield from _unions(doc, doc["definitions"].get(n, {}), depth + 1, seen)
+        return
+    if "oneOf" in s or "anyOf" in s:
+        yield s
+    for k in ("oneOf", "anyOf", "allOf"):
+        for b in s.get(k, []) or []:
+            yield from _unions(doc, b, depth + 1, seen)
+    for ps in (s.get("properties") or {}).values():
+        yield from _unions(doc, ps, depth + 1, seen)
+    for k in ("items", "additionalProperties"):
+        x = s.get(k)
+        if isinstance(x, dict):
+            yield from _unions(doc, x, depth + 1, seen)
+        elif isinstance(x, list):
+            for y in x:
+                yield from _unions(doc, y, depth + 1, seen)
+
+
+def _mixed_closedness(u):
+    objs = list(_branches(u))
+    for b in _branches(u):
+        for ps in b.get("properties", {}).values():
+            if isinstance(ps, dict) and ps.get("type") == "object" and "properties" in ps:
+                objs.append(ps)
+    closed = [b.get("additionalProperties") is False for b in objs]
+    return bool(objs) and any(closed) and not all(closed)
+
+
 def known_class(ctx, ex, it):
     """Map a valid-but-rejected item to a listed finding (narrow classes)."""
     doc = ex.docs[it["m"]]
@@ -44,16 +82,12 @@ def known_class(ctx, ex, it):
     for f in ctx.findings_for():
         cls = f.get("class")
         if cls == "mixed-closedness-tagged-enum":
-            # every inline object the enum's container-level attribute reaches: the branches and
-            # their inline object payloads
-            objs = list(br)
-            for b in br:
-                for ps in b.get("properties", {}).values():
-                    if isinstance(ps, dict) and ps.get("type") == "object" and "properties" in ps:
-                        objs.append(ps)
-            closed = [b.get("additionalProperties") is False for b in objs]
-            if ent.get("kind") == "enum" and ent.get("deny") and objs and any(closed) and not all(closed) \
-                    and "unknown field" in err:
+            # a union reachable from the definition whose inline object branches (and inline object
+            # payloads) mix additionalProperties:false with open ones, converted to ONE enum that
+            # carries the container-level attribute
+            denying = [e for e in ex.dumps[it["m"]]["entries"].values() if e.get("kind") == "enum" and e.get("deny")]
+            if denying and ("unknown field" in err or "did not match any variant" in err) and \
+                    any(_mixed_closedness(u) for u in _unions(doc, s)):
                 return f
         if cls == "internal-document-read-as-adjacent":
             if ent.get("kind") == "enum" and ent.get("tag", {}).get("k") == "adjacent":
